@@ -228,7 +228,7 @@ PROPS = {
     "C18": {
         "title": "Emitted events report the amounts that actually moved",
         "model": "Minter.v begin_block; Distributor.v start_distribution events; Vest.v withdraw_events",
-        "runs": [distr("", 200, 8000), minter(80, 3000), vest("pools", 100, 3000)],
+        "runs": [distr("", 200, 8000), distr("faults", 80, 3000), minter(80, 3000), vest("pools", 100, 3000)],
         "preds": ["C18."],
         "rule": "three generators: " + DISTR_RULE + " | " + MINTER_RULE + " | " + VEST_RULE,
         "level_text": "Coq theorems: the mint event's amount is the supply growth of the block; a sub-distributor's Distribution and Burn events add up "
